@@ -911,3 +911,14 @@ for _p in ('C01', 'C02', 'C03', 'C06', 'C07', 'C08', 'C09', 'C13', 'C15', 'C16')
 for _p in ('C12', 'C07', 'C11', 'C06'):
     M(_p, 'additive-token-extra-ttl-bump-' + _p.lower(), TOK, '        from.require_auth();\n\n        Self::validate_amount(&env, amount);\n        Self::spend_balance(&env, from.clone(), amount);\n        Self::receive_balance(&env, to.clone(), amount);\n',
       '        from.require_auth();\n        extend_instance_ttl(&env);\n\n        Self::validate_amount(&env, amount);\n        Self::spend_balance(&env, from.clone(), amount);\n        Self::receive_balance(&env, to.clone(), amount);\n', equiv=True)
+
+# ---------------- index-based loops ----------------
+_VS_FOR = "    for signer in weighted_signers.signers.iter() {\n        ensure!("
+M('C03', 'refactor4-validate-signers-index-loop', AUTH, _VS_FOR, "    for i in 0..weighted_signers.signers.len() {\n        let signer = weighted_signers.signers.get(i).unwrap();\n        ensure!(", equiv=True)
+M('C03', 'refactor4-validate-signers-index-loop-unchecked', AUTH, _VS_FOR, "    for i in 0..weighted_signers.signers.len() {\n        let signer = weighted_signers.signers.get_unchecked(i);\n        ensure!(", equiv=True)
+M('C03', 'validate-signers-index-loop-skips-first', AUTH, _VS_FOR, "    for i in 1..weighted_signers.signers.len() {\n        let signer = weighted_signers.signers.get(i).unwrap();\n        ensure!(", 'C03.R1')
+M('C03', 'validate-signers-index-loop-always-first', AUTH, _VS_FOR, "    for i in 0..weighted_signers.signers.len() {\n        let _ = i;\n        let signer = weighted_signers.signers.get(0).unwrap();\n        ensure!(", 'C03.R1')
+_AP_FOR = "        for message in messages.into_iter() {\n"
+for _p in ('C02', 'C01', 'C16'):
+    M(_p, 'refactor4-approve-index-loop-' + _p.lower(), GW, _AP_FOR, "        for i in 0..messages.len() {\n            let message = messages.get_unchecked(i);\n", equiv=True)
+M('C02', 'approve-index-loop-skips-last', GW, _AP_FOR, "        for i in 0..messages.len() - 1 {\n            let message = messages.get_unchecked(i);\n", 'C02')
